@@ -64,4 +64,16 @@ CLAIMS = {
   "note": TB + "Client-side Connect, the dialect of Rstat/Rerror encodings and Rread<=count for Ufs are checked by the harness oracle; "
           "their theorems live with C09/C14 when built.",
  },
+ "C13": {
+  "technique": "Lean 4 proof (segmentation independence of the receive loop by an append lemma; loop termination; buffer-aliasing and non-empty-window invariants over all step sequences) + differential correspondence with forced segmentations",
+  "text": "segmentation_independent / same_stream_same_behaviour: for every byte stream and every way of cutting it into reads (any chunk sizes, "
+          "splits inside the size prefix) the mirror of the receive loop hands out the same frames, ends the connection at the same point and "
+          "keeps the same remainder as for the stream in one piece (uses C02's prefix independence of Unpack); extract_fuel: the loop terminates; "
+          "payload_stable: after any history of reads, frames, partial frames and reallocations no Read writes into a frame already handed out; "
+          "read_window_nonempty: every Read has room. Correspondence: real server (and client) fed every single split point, byte-at-a-time, "
+          "random cuts and cuts around the end of the 8*msize array; frames executed (recv.frame schedule point) and connection state vs the "
+          "model; oracle: replies and payload hashes identical to the unsegmented run.",
+  "note": TB + "Transport modelled as a reliable byte stream whose Read returns 1..len bytes (a zero-length read is end-of-stream to go9p). "
+          "Replies sent before a malformed frame ends the connection are timing-dependent and not compared.",
+ },
 }
